@@ -87,8 +87,24 @@ def gen_prices(rng, n: int, regime: str, base_prices=(1.5, 20.0, 100.0, 431.27, 
     return rows
 
 
+def tf_arg(tf, salt=""):
+    """The timeframe as the caller may give it: the string, or - for a third of the cases in
+    which one exists, chosen by a stable hash so that replays reproduce it - the TimeFrame member."""
+    if not tf or not isinstance(tf, str) or tf != tf.upper():
+        return tf
+    import zlib
+    from hexital.utils.timeframe import TimeFrame
+    members = {m.value: m for m in TimeFrame}
+    if tf in members and zlib.crc32(f"{tf}|{salt}".encode()) % 3 == 0:
+        return members[tf]
+    return tf
+
+
 def gen_timestamps(rng, n: int, mode: str, step: int, start: Optional[int] = None) -> List[int]:
-    base = to_ts(datetime(2023, rng.randint(1, 12), rng.randint(1, 28), rng.randint(0, 23), 0, 0))
+    # mostly 2023; also before the epoch, the epoch year, a leap day, far future
+    year = rng.choice([2023] * 6 + [1965, 1970, 2000, 2024, 2041])
+    month, day = (2, 29) if year in (2000, 2024) and rng.random() < 0.5 else (rng.randint(1, 12), rng.randint(1, 28))
+    base = to_ts(datetime(year, month, day, rng.randint(0, 23), 0, 0))
     if start is None:
         start = base + rng.choice([0, 0, step, 1, 7, 59, 61, 3599, 12345])
     ts = [start]
